@@ -153,14 +153,16 @@ theorem wave_dec_run (w : Nat) (bs : Bytes) (h : 24 ≤ bs.length) :
 theorem decodeWave_run (w : Nat) (hw : w = 3 ∨ w = 6) (entry : Cur Impl.V1.Entry)
     (chunk : Bytes → List Impl.V1.Entry)
     (hentry : ∀ n bs, w * n ≤ bs.length → forN entry n bs = .ok (chunk (bs.take (w * n)), bs.drop (w * n)))
-    (bs : Bytes) (h : 24 + w ≤ bs.length) :
+    (bs : Bytes) (hlen : bs.length < maxCount) (h : 24 + w ≤ bs.length) :
     Impl.V1.decodeWave (24 + w) w entry bs =
       if (u64be.get bs).toNat < maxCount ∧ u64be.get (bs.drop 8) = u64be.get bs ∧
           bs.length - 24 = w * (u64be.get bs).toNat + w then
         .ok ⟨u64be.get (bs.drop 16), chunk ((bs.drop 24).take (w * (u64be.get bs).toNat))⟩
       else .throw .invalid_argument := by
   have hw0 : 0 < w := by rcases hw with rfl | rfl <;> omega
-  unfold Impl.V1.decodeWave
+  have hw6 : w ≤ 6 := by rcases hw with rfl | rfl <;> omega
+  rw [ArithZ.decodeWave_eq_Z (24 + w) w (by omega) hw0 hw6 entry bs hlen]
+  unfold ArithZ.decodeWaveZ
   have hlen : ¬ bs.length < 24 + w := by omega
   have r1 := rd_u64be_run (bs := bs) (by omega)
   have r2 := rd_u64be_run (bs := bs.drop 8) (by simp; omega)
@@ -207,14 +209,14 @@ theorem decodeWave_run (w : Nat) (hw : w = 3 ∨ w = 6) (entry : Cur Impl.V1.Ent
 theorem decodeWave_accept (w : Nat) (hw : w = 3 ∨ w = 6) (entry : Cur Impl.V1.Entry)
     (chunk : Bytes → List Impl.V1.Entry)
     (hentry : ∀ n bs, w * n ≤ bs.length → forN entry n bs = .ok (chunk (bs.take (w * n)), bs.drop (w * n)))
-    (bs : Bytes) (raw : V1.WaveRaw) (hd : (V1.wave w).dec bs = some (raw, [])) :
+    (bs : Bytes) (hlen' : bs.length < maxCount) (raw : V1.WaveRaw) (hd : (V1.wave w).dec bs = some (raw, [])) :
     Impl.V1.decodeWave (24 + w) w entry bs = .ok ⟨raw.spe, chunk raw.points⟩ := by
   have hw0 : 0 < w := by rcases hw with rfl | rfl <;> omega
   obtain ⟨hv, e⟩ := V1.wave_exact w hw0 bs raw [] hd
   have hlen : bs.length = 24 + raw.points.length + w := by
     rw [e, List.append_nil, wave_enc_length, hv.2.2]
   have h : 24 + w ≤ bs.length := by omega
-  rw [decodeWave_run w hw entry chunk hentry bs h]
+  rw [decodeWave_run w hw entry chunk hentry bs hlen' h]
   rw [wave_dec_run w bs (by omega)] at hd
   split at hd
   · rename_i hc
@@ -231,14 +233,14 @@ theorem decodeWave_accept (w : Nat) (hw : w = 3 ∨ w = 6) (entry : Cur Impl.V1.
 theorem decodeWave_reject (w : Nat) (hw : w = 3 ∨ w = 6) (entry : Cur Impl.V1.Entry)
     (chunk : Bytes → List Impl.V1.Entry)
     (hentry : ∀ n bs, w * n ≤ bs.length → forN entry n bs = .ok (chunk (bs.take (w * n)), bs.drop (w * n)))
-    (bs : Bytes) (hd : ∀ raw, (V1.wave w).dec bs ≠ some (raw, [])) :
+    (bs : Bytes) (hlen' : bs.length < maxCount) (hd : ∀ raw, (V1.wave w).dec bs ≠ some (raw, [])) :
     Impl.V1.decodeWave (24 + w) w entry bs = .throw .invalid_argument := by
   have hw0 : 0 < w := by rcases hw with rfl | rfl <;> omega
   by_cases hlen : bs.length < 24 + w
   · unfold Impl.V1.decodeWave
     simp only [hlen, if_true]
   · have h : 24 + w ≤ bs.length := by omega
-    rw [decodeWave_run w hw entry chunk hentry bs h]
+    rw [decodeWave_run w hw entry chunk hentry bs hlen' h]
     split
     · rename_i hc
       obtain ⟨h1, h2, h3⟩ := hc
@@ -250,34 +252,34 @@ theorem decodeWave_reject (w : Nat) (hw : w = 3 ∨ w = 6) (entry : Cur Impl.V1.
       exact hd _ this
     · rfl
 
-theorem decodeOvw_eq (bs : Bytes) : Impl.V1.decodeOvw bs = ofOpt (V1.decodeOvw bs) := by
+theorem decodeOvw_eq (bs : Bytes) (hlen : bs.length < maxCount) : Impl.V1.decodeOvw bs = ofOpt (V1.decodeOvw bs) := by
   unfold V1.decodeOvw
   show Impl.V1.decodeWave (24 + 3) 3 Impl.V1.ovwEntry bs = _
   cases hd : (V1.wave 3).dec bs with
   | none =>
-    rw [decodeWave_reject 3 (Or.inl rfl) _ V1.chunk3 forN_ovwEntry bs (by rw [hd]; intro raw h; cases h)]
+    rw [decodeWave_reject 3 (Or.inl rfl) _ V1.chunk3 forN_ovwEntry bs hlen (by rw [hd]; intro raw h; cases h)]
     rfl
   | some p =>
     obtain ⟨raw, r⟩ := p
     cases r with
-    | nil => rw [decodeWave_accept 3 (Or.inl rfl) _ V1.chunk3 forN_ovwEntry bs raw hd]; rfl
+    | nil => rw [decodeWave_accept 3 (Or.inl rfl) _ V1.chunk3 forN_ovwEntry bs hlen raw hd]; rfl
     | cons x r =>
-      rw [decodeWave_reject 3 (Or.inl rfl) _ V1.chunk3 forN_ovwEntry bs (by rw [hd]; intro raw h; cases h)]
+      rw [decodeWave_reject 3 (Or.inl rfl) _ V1.chunk3 forN_ovwEntry bs hlen (by rw [hd]; intro raw h; cases h)]
       rfl
 
-theorem decodeHires_eq (bs : Bytes) : Impl.V1.decodeHires bs = ofOpt (V1.decodeHires bs) := by
+theorem decodeHires_eq (bs : Bytes) (hlen : bs.length < maxCount) : Impl.V1.decodeHires bs = ofOpt (V1.decodeHires bs) := by
   unfold V1.decodeHires
   show Impl.V1.decodeWave (24 + 6) 6 Impl.V1.hiresEntry bs = _
   cases hd : (V1.wave 6).dec bs with
   | none =>
-    rw [decodeWave_reject 6 (Or.inr rfl) _ V1.chunk6 forN_hiresEntry bs (by rw [hd]; intro raw h; cases h)]
+    rw [decodeWave_reject 6 (Or.inr rfl) _ V1.chunk6 forN_hiresEntry bs hlen (by rw [hd]; intro raw h; cases h)]
     rfl
   | some p =>
     obtain ⟨raw, r⟩ := p
     cases r with
-    | nil => rw [decodeWave_accept 6 (Or.inr rfl) _ V1.chunk6 forN_hiresEntry bs raw hd]; rfl
+    | nil => rw [decodeWave_accept 6 (Or.inr rfl) _ V1.chunk6 forN_hiresEntry bs hlen raw hd]; rfl
     | cons x r =>
-      rw [decodeWave_reject 6 (Or.inr rfl) _ V1.chunk6 forN_hiresEntry bs (by rw [hd]; intro raw h; cases h)]
+      rw [decodeWave_reject 6 (Or.inr rfl) _ V1.chunk6 forN_hiresEntry bs hlen (by rw [hd]; intro raw h; cases h)]
       rfl
 
 /-! waveform encoders -/
